@@ -655,6 +655,19 @@ impl<'a> Ck<'a> {
                     }
                 }
             }
+            // an assigning form that refuses (panics) must not leave a value outside the range in
+            // its left operand: the variable is still there after the unwinding
+            if !in_range(e) || !in_range(e2) {
+                let (mut t1, mut t2) = (p, p);
+                let r1 = guard(|| t1 += q);
+                let r2 = guard(|| t2 -= q);
+                if r1.is_err() {
+                    self.invariant("add-assign-operator/left-operand-after-refusal", &inp, &t1);
+                }
+                if r2.is_err() {
+                    self.invariant("sub-assign-operator/left-operand-after-refusal", &inp, &t2);
+                }
+            }
         }
     }
 
